@@ -22,24 +22,26 @@ type Spec struct {
 	Extra         func(w *World) // extra threads (pollers, ...) spawned after the server
 	Check         func(x *vrt.Sched, w *World) []Finding
 	ClientsIdle   bool // clients that "stay" never act again: a wait for them is a wait for the environment
+	NoRaces       bool // the scenario leaves the precondition of C15 (e.g. Router called while serving): races are not reported
 }
 
 type ConnSpec struct {
-	Ops      []string       // requests in send order
-	Segs     []int          // send boundaries: numbers of requests per write (nil = each Write carries everything up to the next StartTLS)
-	H        map[int]*HSpec // handler behaviour by request index (1-based)
-	Expect   int            // plaintext frames to read before End (when Read == "")
-	Read     string         // "" = read Expect frames | "all" = until EOF/error | "none"
-	End      string         // "close" (default) | "reset" | "stay" | "half" (send half a frame, then stay)
-	TLS      string         // "" | "listener" | "listener-nohello" | "listener-halfhello" | "plain-to-tls"
-	TLSCfg   *tls.Config
-	RecvBuf  int
-	WaitNote string
-	IdleFor  int    // virtual seconds to sleep before End
-	EndNote  string // wait for this note before End
-	Sync     bool   // wait for the answers to everything sent so far before sending the next segment
-	After    int    // >0: this connection is opened by the thread of connection number After (1-based) once that one has ended
-	ReadNote string // wait for this note after sending and before reading anything
+	Ops        []string       // requests in send order
+	Segs       []int          // send boundaries: numbers of requests per write (nil = each Write carries everything up to the next StartTLS)
+	H          map[int]*HSpec // handler behaviour by request index (1-based)
+	Expect     int            // plaintext frames to read before End (when Read == "")
+	Read       string         // "" = read Expect frames | "all" = until EOF/error | "none"
+	End        string         // "close" (default) | "reset" | "stay" | "half" (send half a frame, then stay)
+	TLS        string         // "" | "listener" | "listener-nohello" | "listener-halfhello" | "plain-to-tls"
+	TLSCfg     *tls.Config
+	RecvBuf    int
+	WaitNote   string
+	IdleFor    int    // virtual seconds to sleep before End
+	EndNote    string // wait for this note before End
+	Sync       bool   // wait for the answers to everything sent so far before sending the next segment
+	After      int    // >0: this connection is opened by the thread of connection number After (1-based) once that one has ended
+	ReadNote   string // wait for this note after sending and before reading anything
+	IdleBefore int    // virtual seconds to sleep after connecting and before sending anything
 	// ClearBehind: a request sent in the clear in the same write as the StartTLS request, directly behind it
 	// (request index 90); RFC 4511 4.14.1 forbids it, an attacker on the path can do it
 	ClearBehind string
@@ -60,7 +62,7 @@ func opMsgID(op string, ci, k int) int64 {
 func isUnbind(op string) bool { return op == "unbind" || op == "unbind0" }
 
 func (sp *Spec) scn() *Scn {
-	return &Scn{Name: sp.Name, Props: sp.Props, Quick: sp.Quick, Thor: sp.Thor, MaxPts: sp.MaxPts, Body: sp.body, Check: sp.check, Spec: sp}
+	return &Scn{Name: sp.Name, Props: sp.Props, Quick: sp.Quick, Thor: sp.Thor, MaxPts: sp.MaxPts, Body: sp.body, Check: sp.check, Spec: sp, NoRaces: sp.NoRaces}
 }
 
 func (sp *Spec) check(x *vrt.Sched, w *World) []Finding {
@@ -154,7 +156,7 @@ var curSpec *Spec
 func needsStartTLS(sp *Spec) bool {
 	for _, c := range sp.Conns {
 		for _, o := range c.Ops {
-			if o == "starttls" || o == "starttls-silent" {
+			if o == "starttls" || o == "starttls-silent" || o == "starttls-badhello" {
 				return true
 			}
 		}
@@ -187,6 +189,9 @@ func runClient(w *World, ci int, name string, cs *ConnSpec) {
 		_ = cl.Send([]byte{0x16, 0x03, 0x01, 0x02, 0x00, 0x01, 0x00})
 	case "listener-nohello":
 		// connect and send nothing
+	}
+	if cs.IdleBefore > 0 {
+		vrt.Sleep(secs(cs.IdleBefore))
 	}
 	// send
 	k := 0
@@ -228,6 +233,14 @@ func runClient(w *World, ci int, name string, cs *ConnSpec) {
 				return
 			}
 			vrt.Atomic(func() { w.Notes[name+"-upgraded"]++ })
+			continue
+		}
+		if op == "starttls-badhello" {
+			// the StartTLS request is answered, then the client sends something that is no ClientHello and leaves
+			flush()
+			_ = cl.Send(reqBytes("starttls", msgID(ci, k)))
+			cl.ReadFrames(len(cl.Frames) + 1)
+			_ = cl.Send([]byte{0x16, 0x03, 0x01, 0x00, 0x05, 0x01, 0x00, 0x00, 0x01, 0x00})
 			continue
 		}
 		if op == "starttls-silent" {
@@ -286,6 +299,7 @@ func runClient(w *World, ci int, name string, cs *ConnSpec) {
 	case "stay":
 	case "close-then-readall":
 		cl.Close()
+
 	}
 }
 
@@ -303,7 +317,7 @@ func (sp *Spec) realOK() bool {
 		return false
 	}
 	for _, c := range sp.Conns {
-		if c.RecvBuf > 0 || c.IdleFor > 0 || c.End == "stay" || c.End == "half" || c.ReadNote != "" {
+		if c.RecvBuf > 0 || c.IdleFor > 0 || c.IdleBefore > 0 || c.End == "stay" || c.End == "half" || c.ReadNote != "" {
 			return false
 		}
 	}
